@@ -146,6 +146,10 @@ struct checker final : sink
 		m.held -= i.size;
 		++m.departed;
 		if (h + 1 < HOPS) arrive(h + 1, std::move(p));
+#ifdef REENTER
+		// a reply routed back through the same hop: a new packet arrives at hop 0 from inside its forwarding call
+		if (h == 0 && id == 0) inject_id(NPKT - 1);
+#endif
 	}
 	std::string label() const override { return std::string(); }
 	int h;
@@ -158,9 +162,14 @@ int g_next = 0;
 
 void inject_next(error_code const&);
 
+void inject_id(int id);
 void inject_one()
 {
 	int const id = g_next++;
+	inject_id(id);
+}
+void inject_id(int id)
+{
 	pinfo& i = g_p[id];
 	aux::packet p;
 	p.type = aux::packet::type_t(i.type);
@@ -175,9 +184,14 @@ void inject_one()
 	arrive(0, std::move(p));
 }
 
+#ifdef REENTER
+#define NSCHED (NPKT - 1)
+#else
+#define NSCHED NPKT
+#endif
 void schedule()
 {
-	while (g_next < NPKT)
+	while (g_next < NSCHED)
 	{
 		if (g_gap[g_next] == 0) { inject_one(); continue; }
 		g_inject_timer->expires_after(duration(g_gap[g_next]));
@@ -279,7 +293,11 @@ extern "C" int harness_main()
 			vp_assert(p.forwarded[h] + p.dropped_at[h] == 1, 50);
 			nd += p.dropped_at[h]; nf += p.forwarded[h];
 		}
+#ifdef REENTER
+		if (i < NPKT - 1) vp_assert(p.entered[0], 51);
+#else
 		vp_assert(p.entered[0], 51);
+#endif
 	}
 	for (int h = 0; h < HOPS; ++h)
 	{
